@@ -150,6 +150,17 @@ struct gauss_seidel {
 #endif
         }
 
+        // Size of the team executing the current parallel region. It may be
+        // smaller than num_threads() (e.g. when called from a parallel region
+        // of the caller, where nested regions are serialized).
+        static int team_size() {
+#ifdef _OPENMP
+            return omp_get_num_threads();
+#else
+            return 1;
+#endif
+        }
+
         template <class Matrix, class VectorRHS, class VectorX>
         static void serial_sweep(
                 const Matrix &A, const VectorRHS &rhs, VectorX &x, bool forward)
@@ -274,8 +285,8 @@ struct gauss_seidel {
                 std::vector<ptrdiff_t> thread_cols(nthreads, 0);
 
 #pragma omp parallel
+                for(int tid = thread_id(); tid < nthreads; tid += team_size())
                 {
-                    int tid = thread_id();
                     tasks[tid].reserve(nlev);
 
                     for(ptrdiff_t lev = 0; lev < nlev; ++lev) {
@@ -302,9 +313,8 @@ struct gauss_seidel {
 
                 // 4. reorganize matrix data for better cache and NUMA locality.
 #pragma omp parallel
+                for(int tid = thread_id(); tid < nthreads; tid += team_size())
                 {
-                    int tid = thread_id();
-
                     col[tid].reserve(thread_cols[tid]);
                     val[tid].reserve(thread_cols[tid]);
                     ord[tid].reserve(thread_rows[tid]);
@@ -338,29 +348,35 @@ struct gauss_seidel {
             void sweep(const Vector1 &rhs, Vector2 &x) const {
 #pragma omp parallel
                 {
-                    int tid = thread_id();
+                    // every entry of tasks holds one task per level
+                    const size_t nlev = tasks[0].size();
 
-                    for(const task &t : tasks[tid]) {
-                        for(ptrdiff_t r = t.beg; r < t.end; ++r) {
-                            ptrdiff_t i   = ord[tid][r];
-                            ptrdiff_t beg = ptr[tid][r];
-                            ptrdiff_t end = ptr[tid][r+1];
+                    for(size_t lev = 0; lev < nlev; ++lev) {
+                        // the team may be smaller than nthreads
+                        for(int tid = thread_id(); tid < nthreads; tid += team_size()) {
+                            const task &t = tasks[tid][lev];
 
-                            value_type D = math::identity<value_type>();
-                            rhs_type X;
-                            X = rhs[i];
+                            for(ptrdiff_t r = t.beg; r < t.end; ++r) {
+                                ptrdiff_t i   = ord[tid][r];
+                                ptrdiff_t beg = ptr[tid][r];
+                                ptrdiff_t end = ptr[tid][r+1];
 
-                            for(ptrdiff_t j = beg; j < end; ++j) {
-                                ptrdiff_t  c = col[tid][j];
-                                value_type v = val[tid][j];
+                                value_type D = math::identity<value_type>();
+                                rhs_type X;
+                                X = rhs[i];
 
-                                if (c == i)
-                                    D = v;
-                                else
-                                    X -= v * x[c];
+                                for(ptrdiff_t j = beg; j < end; ++j) {
+                                    ptrdiff_t  c = col[tid][j];
+                                    value_type v = val[tid][j];
+
+                                    if (c == i)
+                                        D = v;
+                                    else
+                                        X -= v * x[c];
+                                }
+
+                                x[i] = math::inverse(D) * X;
                             }
-
-                            x[i] = math::inverse(D) * X;
                         }
 
                         // each task corresponds to a level, so we need
